@@ -25,6 +25,10 @@ def run(ctx):
         ctx.model_check("MC_Seq", "MC_Seq_unpack3", workers=16, heap="8g", timeout=3000)
     # T
     if thorough:
+        for part in range(2, 5):      # inputs beyond 2^20 elements (events 3-5 of the huge family are the 2-bit ones)
+            t = c12.drive(ctx, ["seq-drive", "huge", "@OUT@", 0, part, 5], "huge_%d.ndjson" % part)
+            c12.judge(ctx, "Trace_Seq", t, "seq", "sequtil", heap="14g", timeout=3000, maxset=100000000)
+            os.remove(t)
         parts = 10
         for part in range(parts):
             t = c12.drive(ctx, ["seq-drive", "twobit", "@OUT@", 7, part, parts], "twobit_%d.ndjson" % part)
